@@ -208,6 +208,35 @@ def _case_h2_late_data(rng, tier, n):
             "truth": {"requests": reqs, "paces": ["early"] * nearly + ["eager"]}, "sched": {"seed": rng.randrange(1 << 30)}}
 
 
+def _case_h2_client_goaway(rng, tier, n):
+    """The client announces (GOAWAY, NO_ERROR) that it will open no further streams and then finishes the upload it has in flight - as a
+    client shutting down gracefully does.  It did complete the body: the application has to receive all of it and its end."""
+    fb = FrameBuilder()
+    rspec = {"kind": "h2", "credit": "auto"}
+    tag = n * 10
+    req = G.gen_request(rng, tag, "2", tier, body_sizes=[rng.choice([3000, 40000])], methods=["POST"])
+    req["sid"], req["complete"], req["pad"] = 1, True, 0
+    target = req["path"] + (b"?" + req["query"] if req["query"] is not None else b"")
+    head = client_preface(fb, rspec) + fb.headers(1, [(b":method", b"POST"), (b":scheme", b"http"), (b":path", target), (b":authority", req["authority"])]
+                                                  + list(req["headers"]), end_stream=False)
+    body = req["body"]
+    cut = rng.randrange(0, len(body))
+    def _frames(b_, end):
+        out, off = b"", 0
+        while off < len(b_) or (end and not out):
+            k = min(16000, len(b_) - off)
+            out += fb.data(1, b_[off:off + k], end_stream=end and off + k >= len(b_))
+            off += max(k, 1) if not b_ else k
+            if not b_:
+                break
+        return out
+    first, rest = _frames(body[:cut], False) if cut else b"", _frames(body[cut:], True)
+    client = [["feed", head + first], ["settle"], ["feed", fb.goaway(last=0, code=0)]] + ([["settle"]] if rng.random() < 0.5 else []) + [["feed", rest], ["settle"]]
+    return {"family": "h2.client-goaway-mid-upload", "backends": ["asyncio", "trio"], "config": {"keep_alive_timeout": 5}, "conn": {},
+            "apps": {"default": [["recv_until_end"], ["respond", 200, [], b"d"]]}, "client": client, "reactor": rspec,
+            "truth": {"requests": [req], "paces": ["eager"], "client_goaway": True}, "sched": {"seed": rng.randrange(1 << 30)}}
+
+
 def gen_cases(rng, tier):
     n = N_CASES[tier]
     # exhaustive 2-way split sweep of a few short requests
@@ -217,6 +246,8 @@ def gen_cases(rng, tier):
             yield _case_h1(rng, tier, i, exhaustive_split=i)
         elif i % 40 == 7:
             yield _case_h2_late_data(rng, tier, i)
+        elif i % 400 == 9:
+            yield _case_h2_client_goaway(rng, tier, i)
         elif rng.random() < 0.55:
             yield _case_h1(rng, tier, i)
         else:
@@ -493,6 +524,12 @@ def check(case, obs, tally):
         reqmsgs = [m for m in msgs if m.get("type") == "http.request"]
         body = b"".join(bytes(m.get("body", b"")) for m in reqmsgs)
         tally.clause("body")
+        if r.get("complete", True) and case["truth"].get("client_goaway") and body != r["body"] and r["body"].startswith(body):
+            # mechanism: the connection was dropped at the client's GOAWAY although the client went on to complete its upload
+            out.append({"clause": "body", "sig": "C01.body/incomplete/h2/client-goaway-mid-upload",
+                        "detail": "tag %d: the client sent GOAWAY(NO_ERROR) in the middle of its upload and then the rest of the body; the application "
+                                  "received %d of %d bytes and no end of body" % (r["tag"], len(body), len(r["body"]))})
+            return out
         if r.get("complete", True):
             if body != r["body"]:
                 out.append({"clause": "body", "sig": "C01.body/mismatch/h%s" % r["version"],
